@@ -1,5 +1,5 @@
 From PdfV Require Import Base.Prelude Base.DecProofs Gen.Generated Lex.Lexer Lex.StrLexer Lex.LexProofs Lex.StrProofs
-  Syn.Prim Syn.Utf8 Syn.Parser Syn.Serialize Syn.Spells Syn.ParserProofs Syn.NameProofs Syn.RenderProofs Syn.SerProofs Syn.IndirectSerProofs Properties.C04.
+  Syn.Prim Syn.Utf8 Syn.Parser Syn.Serialize Syn.Spells Syn.ParserProofs Syn.NameProofs Syn.RenderProofs Syn.SerProofs Syn.StreamProofs Syn.IndirectSerProofs Syn.StreamSerProofs Properties.C04.
 Check C04_ser_spells : forall v, storable v ->
   exists core, ser v = Ok (core ++ trail v) /\ spells v (items_of v) /\
     forall tl, boundary tl -> renders (items_of v) (core ++ trail v ++ tl) (trail v ++ tl).
@@ -17,3 +17,13 @@ Check C04_indirect_body : forall v id gen,
   exists body, ser v = Ok body /\
     parse_indirect_object R allow F_ANY (mkLx p (obj_text id gen body rest)) =
       Ok (id, gen, v, mkLx (p + lenN (obj_text id gen body rest) - lenN ([10] ++ rest)) ([10] ++ rest)).
+Check C04_stream : forall d data id gen,
+  NoDup (keys d) -> entries_storable d -> 1 + ddepth d <= MAX_DEPTH ->
+  id < 18446744073709551616 -> gen < 18446744073709551616 ->
+  forall R, length_entry R d (lenN data) ->
+  forall allow rest p,
+  exists body st s_end,
+    ser (PStreamData d data) = Ok body /\
+    parse_indirect_object R allow F_ANY (mkLx p (obj_text id gen body rest)) = Ok (id, gen, PStream d id gen st (lenN data), s_end) /\
+    p <= st /\ take (lenN data) (drop (st - p) (obj_text id gen body rest)) = data /\
+    lrest s_end = [10] ++ rest.
